@@ -89,6 +89,12 @@ def mnToXyJ (a b : Int) : Int := tri (a + b) + b + 1
 /-! ## run-time of the translated Python fragments -/
 namespace Py
 
+/-- Python `int(x)` on an exact rational: truncation toward zero -/
+def int (x : Rat) : Int := if x < 0 then Rat.ceil x else Rat.floor x
+
+/-- `np.mod(a, b)` / Python `a % b` on exact rationals (floored) -/
+def modQ (a b : Rat) : Rat := a - b * ((Rat.floor (a / b) : Int) : Rat)
+
 /-- Python `l[i]` on a list: negative `i` counts from the end; out of range ↦ `none` (`IndexError`) -/
 def idx (l : List Int) (i : Int) : Option Int :=
   if 0 ≤ i then l[i.toNat]?
